@@ -110,7 +110,15 @@ RECURSIVE Leaves(_)
 Leaves(e) == CASE e.t = "list" -> Flat([k \in 1..Len(e.xs) |-> Leaves(e.xs[k])])
                [] e.t = "none" -> <<>>
                [] OTHER -> <<e>>
-VFlattenAll(v, T) == IF HasRecOrUnion(T) \/ HasStrT(T) THEN Unspec ELSE Ok(VList(Leaves(v)))
+HasRecT(T) == LET RECURSIVE has(_)
+                  has(U) == CASE U.k = "rec" -> TRUE
+                              [] U.k \in {"var", "reg", "opt"} -> has(U.x)
+                              [] U.k = "union" -> \E j \in 1..Len(U.xs) : has(U.xs[j])
+                              [] OTHER -> FALSE
+              IN has(T)
+\* (also for unions: "all leaves in order"; the library groups them by union content -- finding F73 -- but never
+\*  loses or duplicates one)
+VFlattenAll(v, T) == IF HasRecT(T) \/ HasStrT(T) THEN Unspec ELSE Ok(VList(Leaves(v)))
 VReduceAll(v, T, r) ==
   IF HasRecOrUnion(T) \/ HasStrT(T) THEN Unspec
   ELSE LET ls == Leaves(v)  g == [k \in 1..Len(ls) |-> [i |-> k - 1, v |-> ls[k]]] IN
